@@ -15,7 +15,7 @@ pub const C03_FAULTS: &[&str] = &[
 ];
 pub const C03_PROBES: &[&str] = &[
     "outcome_ok", "outcome_fatal", "outcome_incomplete", "outcome_stuck", "calls_after_final", "conversion_nonfinal",
-    "stream_error_sticky", "stream_stuck_full_buffer",
+    "stream_error_sticky", "stream_stuck_full_buffer", "conversion_probe_ok", "conversion_probe_interrupted",
 ];
 
 /// Applies 1..3 structured mutations to a valid wire (record boundaries known).
